@@ -179,9 +179,11 @@ func ruleBlockingDiscipline(c *Ctx, r *Report) {
 			continue
 		}
 		var closes []ssa.Instruction
-		for _, ci := range callsIn(fn, nameIs("builtin:close")) {
-			if _, f, _, ok := fieldLoad(ci.Common().Args[0]); ok && f == "Done" {
-				closes = append(closes, ci)
+		for _, uf := range c.unitFuncs(fn) {
+			for _, ci := range callsIn(uf, nameIs("builtin:close")) {
+				if _, f, _, ok := fieldLoad(ci.Common().Args[0]); ok && f == "Done" {
+					closes = append(closes, ci)
+				}
 			}
 		}
 		// start after the select that received the state: find the Select and the state's extraction
@@ -220,7 +222,7 @@ func ruleBlockingDiscipline(c *Ctx, r *Report) {
 			ex, ok := v.(*ssa.Extract)
 			return ok && ex.Tuple == ssa.Value(sel) && ex.Index == 0
 		}, vInt(int64(recvIdx))}
-		w := &Walk{Fn: fn, Assume: assumeAll(okParse, idxAtom)}
+		w := &Walk{Fn: fn, Follow: followSamePkg(fn), Assume: assumeAll(okParse, idxAtom)}
 		w.Visit = func(in ssa.Instruction, _ Env) bool { return !isClose[in] }
 		w.After(sel)
 		leak := ""
@@ -428,4 +430,80 @@ func isCallOnClosed(v ssa.Value) bool {
 		}
 	}
 	return false
+}
+
+// ruleCloseAwareContextUsed (C16): a function that builds a close-aware context (one that is
+// cancelled when the connection closes) hands exactly that context to everything it then calls
+// with a context: a blocking call given any other context (the raw deadline, the caller's context)
+// is not interrupted by Close, and Close, which needs the write lock the blocked call holds, never
+// finishes either.
+func ruleCloseAwareContextUsed(c *Ctx, r *Report) {
+	const rule = "close-aware-context-used"
+	n := 0
+	isCtx := func(t types.Type) bool { return namedOrType(t) == "context.Context" }
+	for _, s := range c.CallsTo(func(nm string) bool {
+		return strings.HasSuffix(nm, "dtls.Conn).contextWithClose") || strings.HasSuffix(nm, "dtls.Conn).contextWithCloseAndWriteDeadline")
+	}) {
+		mk, ok := s.Call.(*ssa.Call)
+		if !ok {
+			continue
+		}
+		fn := s.Fn
+		r.Sites += len(fn.Blocks)
+		var made ssa.Value
+		for _, ref := range *mk.Referrers() {
+			if ex, ok := ref.(*ssa.Extract); ok && ex.Index == 0 {
+				made = ex
+			}
+		}
+		if made == nil {
+			r.Bad(rule, short(fn), c.ipos(mk), "the close-aware context is built and discarded")
+			continue
+		}
+		n++
+		used := 0
+		bad := 0
+		for _, b := range fn.Blocks {
+			for _, in := range b.Instrs {
+				call, ok := in.(*ssa.Call)
+				if !ok || call == mk || !instrDominates(mk, call) {
+					continue
+				}
+				callee := call.Call.StaticCallee()
+				name := calleeName(&call.Call)
+				if callee != nil && !inModule(callee) {
+					continue
+				}
+				if callee == nil && !call.Call.IsInvoke() {
+					continue
+				}
+				anyCtx, anyMade := false, false
+				other := ""
+				for _, a := range call.Call.Args {
+					if !isCtx(a.Type()) {
+						continue
+					}
+					anyCtx = true
+					if allLeaves(c.Origins(a, 0), func(l ssa.Value) bool { return l == made }) {
+						anyMade = true
+					} else {
+						other = shapeOf(a, 0)
+					}
+				}
+				if !anyCtx {
+					continue
+				}
+				if anyMade {
+					used++
+					continue
+				}
+				bad++
+				r.Bad(rule, fmt.Sprintf("%s:%s", short(fn), name), c.ipos(call), fmt.Sprintf("%s builds a close-aware context but calls %s with another one (%s): that call is not interrupted when the connection is closed", short(fn), name, other))
+			}
+		}
+		if bad == 0 {
+			r.Check(used > 0, rule, short(fn), c.ipos(mk), fmt.Sprintf("every context-taking call after it (%d) receives the close-aware context", used), "the close-aware context is built but never handed to a call")
+		}
+	}
+	r.Floor(rule, n, 2)
 }
